@@ -345,16 +345,17 @@ static void case_align(unsigned char *b, size_t n)
         for (i = 0; i < f->final_state; i++) {
             glist_t gl = fsg_model_trans(f, i, i + 1);
             gnode_t *gn;
-            const char *w = "?";
-            int32 best = -1;
-            /* arcs i -> i+1 are the word of the text (added first: smallest word id) and its
-             * alternative pronunciations (added later by fsg_search_init) */
+            int k = 0;
+            /* arcs i -> i+1: the word of the text and the alternative pronunciations that
+             * fsg_search_init added for it; all of them are printed, separated by '|' */
+            printf(" ");
             for (gn = gl; gn; gn = gnode_next(gn)) {
                 fsg_link_t *l = (fsg_link_t *)gnode_ptr(gn);
-                if (l->wid >= 0 && (best < 0 || l->wid < best)) best = l->wid;
+                if (l->wid < 0) continue;
+                if (k++) printf("|");
+                hexs(fsg_model_word_str(f, l->wid));
             }
-            if (best >= 0) w = fsg_model_word_str(f, best);
-            printf(" "); hexs(w);
+            if (k == 0) printf("?");
         }
         printf("\n");
         printf("%s shape %d %d %d\n", cur_id, f->n_state, f->start_state, f->final_state);
